@@ -99,6 +99,8 @@ json prodMapToJson(const AutBase::ProductTranslMap& m)
 VDRIVE_OP(faincl)
 {
 	FA a = MakeFA(c.at("A"));
+	std::unique_ptr<FA> keep;
+	if (c.value("amode", "") == "copy") { keep.reset(new FA(a)); }
 	// "bmode": "alias" = the same object is both operands, "copy" = B is a copy of A sharing its storage (value B = A)
 	std::string bmode = c.value("bmode", "");
 	FA bc = MakeSecondFA(a, c.at("A"), c.at("B"), bmode);
@@ -123,6 +125,7 @@ VDRIVE_OP(faincl)
 	SetStage("readback");
 	res["A_after"] = ReadFA(a);
 	res["B_after"] = ReadFA(b);
+	if (keep) { res["keep_after"] = ReadFA(*keep); }
 	return res;
 }
 
@@ -147,6 +150,9 @@ VDRIVE_OP(faop)
 		return y;
 	};
 	FA a = prep(c.at("A"), c.value("preA", ""), "A1");
+	// "amode": "copy" - a copy of the operand (sharing its storage) is alive during the call and read back afterwards
+	std::unique_ptr<FA> keep;
+	if (c.value("amode", "") == "copy") { keep.reset(new FA(a)); }
 	bool binary = (kind == "union" || kind == "uniondisj" || kind == "isect");
 	if (binary)
 	{
@@ -195,6 +201,7 @@ VDRIVE_OP(faop)
 	}
 	SetStage("readback");
 	res["A_after"] = ReadFA(a);
+	if (keep) { res["keep_after"] = ReadFA(*keep); }
 	return res;
 }
 
